@@ -434,7 +434,7 @@ static size_t safec_ftoa(out_fct_type out, const char *funcname, char *buffer,
 #ifdef PRINTF_SUPPORT_LONG_DOUBLE
         // TODO Is %le good?
         return safec_etoa_long(out, funcname, buffer, idx, maxlen,
-                               (long double)value, prec, width, flags, "%le");
+                               (long double)value, prec, width, flags, "%Le");
 #else
         return safec_etoa(out, funcname, buffer, idx, maxlen, value, prec,
                           width, flags);
